@@ -53,7 +53,8 @@ func regionFormat(msg reflect.Type, protoName string) bool {
 
 const ruleText = "key-bearing field := protobuf field of Go type []byte or [][]byte whose proto name matches " +
 	"^(key|keys|*_key|*_keys|primary|primary_lock|secondaries|start|end)$ , reached from the command's request/response " +
-	"message through singular or repeated message fields (each message type at most twice on a path; kvrpcpb.Context is not entered); " +
+	"message through singular or repeated message fields (each message type at most twice on a path; kvrpcpb.Context is not entered; " +
+	"kvrpcpb.KeyError is not entered on the request side); range-end := key-bearing request field named end or end_key (left empty it must become the keyspace end); " +
 	"region-format (memcomparable over the prefixed key) := metapb.Region.{start_key,end_key}, errorpb.KeyNotInRegion.{start_key,end_key}, " +
 	"errorpb.BucketVersionNotMatch.keys; every other []byte / [][]byte field is listed under non_key_bytes_fields"
 
@@ -179,9 +180,13 @@ func (l leaf) String() string { return strings.Join(l.ppath, ".") }
 
 var nonKeyBytes = map[string]bool{}
 
+// on the request side kvrpcpb.KeyError (an error description, response-only) is not entered
+var skipKeyError = false
+var keyErrType = reflect.TypeOf(kvrpcpb.KeyError{})
+
 // leaves enumerates the key-bearing fields below message struct type t (t is the struct, not the pointer)
 func leaves(t reflect.Type, path, ppath []string, onPath map[reflect.Type]int, out *[]leaf) {
-	if onPath[t] >= 2 {
+	if onPath[t] >= 2 || (skipKeyError && t == keyErrType) {
 		return
 	}
 	onPath[t]++
@@ -370,18 +375,17 @@ func b2s(b bool) string {
 	return "0"
 }
 
-func runCatalogue(cmdsFile, outFile string) {
+type nv struct {
+	name string
+	v    uint16
+}
+
+func readCmds(cmdsFile string) (cmds []nv, aliases []string) {
 	data, err := os.ReadFile(cmdsFile)
 	if err != nil {
 		panic(err)
 	}
-	type nv struct {
-		name string
-		v    uint16
-	}
-	var cmds []nv
 	seenV := map[uint16]string{}
-	var aliases []string
 	for _, l := range strings.Split(string(data), "\n") {
 		w := strings.Fields(l)
 		if len(w) != 2 {
@@ -398,6 +402,102 @@ func runCatalogue(cmdsFile, outFile string) {
 		seenV[uint16(x)] = w[0]
 		cmds = append(cmds, nv{w[0], uint16(x)})
 	}
+	return
+}
+
+type prober struct {
+	cc     *grpc.ClientConn
+	client tikvpb.TikvClient
+	dbg    debugpb.DebugClient
+	cands  []reflect.Type
+}
+
+func newProber() *prober {
+	cc := newProbeConn()
+	return &prober{cc: cc, client: tikvpb.NewTikvClient(cc), dbg: debugpb.NewDebugClient(cc), cands: requestCandidates()}
+}
+
+// identify finds the request / response messages of a command by running CallRPC / CallDebugRPC /
+// ToBatchCommandsRequest for real against the intercepted connection
+func (p *prober) identify(c nv) cmdInfo {
+	bg := context.Background()
+	ci := cmdInfo{name: c.name, value: c.v}
+	typ := tikvrpc.CmdType(c.v)
+	for _, ct := range p.cands {
+		req := tikvrpc.NewRequest(typ, reflect.New(ct.Elem()).Interface())
+		var resp *tikvrpc.Response
+		var err error
+		lastProbe = nil
+		via := ""
+		k := guard(func() { resp, err = tikvrpc.CallRPC(bg, p.client, req) })
+		if k == "" && err != nil {
+			lastProbe = nil
+			k = guard(func() { resp, err = tikvrpc.CallDebugRPC(bg, p.dbg, req) })
+			via = "CallDebugRPC"
+		} else {
+			via = "CallRPC"
+		}
+		if k != "" || err != nil || lastProbe == nil {
+			continue
+		}
+		pr := lastProbe
+		ci.via = via
+		ci.reqT = ct.Elem()
+		ci.method = pr.method
+		ci.stream = pr.stream
+		if !pr.stream {
+			ci.respT = reflect.TypeOf(pr.reply).Elem()
+		} else {
+			w := reflect.ValueOf(resp.Resp)
+			ci.wrapT = w.Type()
+			// the embedded stream client is field 0; Recv() tells the message type
+			lastProbe = &probeRec{}
+			rv := w.Elem().Field(0).MethodByName("Recv").Call(nil)
+			if lastProbe.reply != nil {
+				ci.respT = reflect.TypeOf(lastProbe.reply).Elem()
+			} else if len(rv) > 0 {
+				ci.respT = rv[0].Type().Elem()
+			}
+			wt := w.Type()
+			ci.wrapVal = func() reflect.Value { return reflect.New(wt.Elem()) }
+		}
+		break
+	}
+	if ci.reqT == nil {
+		// commands that never reach the wire (CmdEmpty): the batch conversion type-asserts the request
+		for _, ct := range p.cands {
+			req := tikvrpc.NewRequest(typ, reflect.New(ct.Elem()).Interface())
+			var b *tikvpb.BatchCommandsRequest_Request
+			if guard(func() { b = req.ToBatchCommandsRequest() }) == "" && b != nil {
+				ci.reqT = ct.Elem()
+				ci.via = "ToBatchCommandsRequest"
+				var resp *tikvrpc.Response
+				var err error
+				if guard(func() { resp, err = tikvrpc.CallRPC(bg, p.client, req) }) == "" && err == nil && resp != nil && resp.Resp != nil {
+					ci.respT = reflect.TypeOf(resp.Resp).Elem()
+				}
+				break
+			}
+		}
+	}
+	return ci
+}
+
+func identifyAll(cmdsFile string) []cmdInfo {
+	cmds, _ := readCmds(cmdsFile)
+	p := newProber()
+	defer p.cc.Close()
+	var out []cmdInfo
+	for _, c := range cmds {
+		out = append(out, p.identify(c))
+	}
+	return out
+}
+
+func vxEncodeBytes(b []byte) []byte { return codec.EncodeBytes(nil, b) }
+
+func runCatalogue(cmdsFile, outFile string) {
+	cmds, aliases := readCmds(cmdsFile)
 	out, err := os.Create(outFile)
 	if err != nil {
 		panic(err)
@@ -405,17 +505,13 @@ func runCatalogue(cmdsFile, outFile string) {
 	defer out.Close()
 	pr := func(f string, a ...interface{}) { fmt.Fprintf(out, f+"\n", a...) }
 
-	cc := newProbeConn()
-	defer cc.Close()
-	client := tikvpb.NewTikvClient(cc)
-	dbg := debugpb.NewDebugClient(cc)
-	cands := requestCandidates()
+	p := newProber()
+	defer p.cc.Close()
 	reqOne := oneofs((&tikvpb.BatchCommandsRequest_Request{}).XXX_OneofWrappers())
 	respOne := oneofs((&tikvpb.BatchCommandsResponse_Response{}).XXX_OneofWrappers())
-	bg := context.Background()
 
 	mkCodec := func(mode apicodec.Mode, id uint32) apicodec.Codec {
-		c, err := apicodec.NewCodecV2(mode, &keyspacepb.KeyspaceMeta{Id: id, Name: "verif"})
+		c, err := apicodec.NewCodecV2(mode, &keyspacepb.KeyspaceMeta{Keyspace: &keyspacepb.KeyspaceMeta_Id{Id: id}, Name: "verif"})
 		if err != nil {
 			panic(err)
 		}
@@ -429,66 +525,8 @@ func runCatalogue(cmdsFile, outFile string) {
 	}
 	usedReqOne := map[string]bool{}
 	for _, c := range cmds {
-		ci := cmdInfo{name: c.name, value: c.v}
+		ci := p.identify(c)
 		typ := tikvrpc.CmdType(c.v)
-		// ---- identify messages by running CallRPC / CallDebugRPC / ToBatchCommandsRequest for real
-		for _, ct := range cands {
-			req := tikvrpc.NewRequest(typ, reflect.New(ct.Elem()).Interface())
-			var resp *tikvrpc.Response
-			var err error
-			lastProbe = nil
-			k := guard(func() { resp, err = tikvrpc.CallRPC(bg, client, req) })
-			if k == "" && err != nil {
-				lastProbe = nil
-				k = guard(func() { resp, err = tikvrpc.CallDebugRPC(bg, dbg, req) })
-				if k == "" && err == nil && lastProbe != nil {
-					ci.via = "CallDebugRPC"
-				}
-			} else if k == "" && lastProbe != nil {
-				ci.via = "CallRPC"
-			}
-			if k != "" || err != nil || lastProbe == nil {
-				continue
-			}
-			p := lastProbe
-			ci.reqT = ct.Elem()
-			ci.method = p.method
-			ci.stream = p.stream
-			if !p.stream {
-				ci.respT = reflect.TypeOf(p.reply).Elem()
-			} else {
-				w := reflect.ValueOf(resp.Resp)
-				ci.wrapT = w.Type()
-				// the embedded stream client is field 0; Recv() tells the message type
-				lastProbe = &probeRec{}
-				rv := w.Elem().Field(0).MethodByName("Recv").Call(nil)
-				if lastProbe.reply != nil {
-					ci.respT = reflect.TypeOf(lastProbe.reply).Elem()
-				} else if len(rv) > 0 {
-					ci.respT = rv[0].Type().Elem()
-				}
-				wt := w.Type()
-				ci.wrapVal = func() reflect.Value { return reflect.New(wt.Elem()) }
-			}
-			break
-		}
-		if ci.reqT == nil {
-			// commands that never reach the wire (CmdEmpty): the batch conversion type-asserts the request
-			for _, ct := range cands {
-				req := tikvrpc.NewRequest(typ, reflect.New(ct.Elem()).Interface())
-				var b *tikvpb.BatchCommandsRequest_Request
-				if guard(func() { b = req.ToBatchCommandsRequest() }) == "" && b != nil {
-					ci.reqT = ct.Elem()
-					ci.via = "ToBatchCommandsRequest"
-					var resp *tikvrpc.Response
-					var err error
-					if guard(func() { resp, err = tikvrpc.CallRPC(bg, client, req) }) == "" && err == nil && resp != nil && resp.Resp != nil {
-						ci.respT = reflect.TypeOf(resp.Resp).Elem()
-					}
-					break
-				}
-			}
-		}
 		if ci.reqT == nil {
 			pr("cmd %s %d req=- resp=- via=- method=- stream=0 hasctx=0 attach=0 hasregerr=0 genregerr=0 batchform=0 tobatch=0 frombatch=0 reason=unidentified", c.name, c.v)
 			continue
@@ -596,23 +634,37 @@ func runCatalogue(cmdsFile, outFile string) {
 		case !hasCtx:
 			reason = "no-context-field"
 		}
+		if ci.method == "" {
+			ci.method = "-"
+		}
 		pr("cmd %s %d req=%s resp=%s via=%s method=%s stream=%s hasctx=%s attach=%s hasregerr=%s genregerr=%s batchform=%s tobatch=%s frombatch=%s reason=%s",
 			c.name, c.v, tname(ci.reqT), tname(ci.respT), ci.via, ci.method, b2s(ci.stream), b2s(hasCtx), b2s(attach), b2s(hasRegErr), b2s(genOK),
 			b2s(batchForm), b2s(toOK), b2s(fromOK), reason)
 
 		// ---- key-bearing request fields: observed effect of EncodeRequest
 		var rl []leaf
+		skipKeyError = true
 		leaves(ci.reqT, nil, nil, map[reflect.Type]int{}, &rl)
+		skipKeyError = false
 		for _, lf := range rl {
 			effect, intact := "", true
+			last := lf.ppath[len(lf.ppath)-1]
+			isEnd := !lf.multi && (last == "end" || last == "end_key")
+			emptyEnd := "na"
 			for _, cd := range codecs {
 				e, in := probeEncode(cd, typ, ci, lf)
 				if effect == "" || e != "prefixed" {
 					effect = e
 				}
 				intact = intact && in
+				if isEnd {
+					ee := probeEmptyEnd(cd, typ, ci, lf)
+					if emptyEnd == "na" || ee != "kend" {
+						emptyEnd = ee
+					}
+				}
 			}
-			pr("field %s req %s multi=%s fmt=plain effect=%s intact=%s", c.name, lf, b2s(lf.multi), effect, b2s(intact))
+			pr("field %s req %s multi=%s fmt=plain effect=%s intact=%s emptyend=%s", c.name, lf, b2s(lf.multi), effect, b2s(intact), emptyEnd)
 		}
 		// ---- key-bearing response fields: observed effect of DecodeResponse
 		if ci.respT != nil {
@@ -630,7 +682,7 @@ func runCatalogue(cmdsFile, outFile string) {
 				if lf.region {
 					f = "region"
 				}
-				pr("field %s resp %s multi=%s fmt=%s effect=%s intact=1", c.name, lf, b2s(lf.multi), f, effect)
+				pr("field %s resp %s multi=%s fmt=%s effect=%s intact=1 emptyend=na", c.name, lf, b2s(lf.multi), f, effect)
 			}
 		}
 	}
@@ -680,6 +732,33 @@ func probeEncode(cd apicodec.Codec, typ tikvrpc.CmdType, ci cmdInfo, lf leaf) (e
 	return
 }
 
+// probeEmptyEnd: the range-end leaf left empty (its parents exist): it must come out as the keyspace end
+func probeEmptyEnd(cd apicodec.Codec, typ tikvrpc.CmdType, ci cmdInfo, lf leaf) (res string) {
+	res = "panic"
+	guard(func() {
+		msg := skeleton(ci.reqT)
+		n := 0
+		setLeaf(msg, lf.path, func(int) []byte { return []byte{} }, &n)
+		enc, err := cd.EncodeRequest(tikvrpc.NewRequest(typ, msg.Interface()))
+		if err != nil {
+			res = "error"
+			return
+		}
+		_, kend := apicodec.VerifBounds(cd)
+		var got [][]byte
+		if !getLeaf(reflect.ValueOf(enc.Req), lf.path, &got) {
+			res = "dropped"
+		} else if allEq(got, func(int) []byte { return kend }) {
+			res = "kend"
+		} else if allEq(got, func(int) []byte { return nil }) {
+			res = "empty"
+		} else {
+			res = "other"
+		}
+	})
+	return
+}
+
 // probeDecode: response with only this leaf populated (prefix++marker, or its region form), through DecodeResponse
 func probeDecode(cd apicodec.Codec, typ tikvrpc.CmdType, ci cmdInfo, lf leaf) string {
 	try := func(region bool) string {
@@ -711,7 +790,7 @@ func probeDecode(cd apicodec.Codec, typ tikvrpc.CmdType, ci cmdInfo, lf leaf) st
 				}
 				respV = w.Interface()
 			}
-			req := tikvrpc.NewRequest(typ, reflect.New(ci.reqT).Interface())
+			req := tikvrpc.NewRequest(typ, skeleton(ci.reqT).Interface())
 			enc, err := cd.EncodeRequest(req)
 			if err != nil {
 				effect = "error"
